@@ -1,5 +1,5 @@
 """C05 (and the value part of C06): replay of OdmlValues transitions into real Properties."""
-import datetime as dt, random
+import datetime as dt, random, zlib
 from . import common as C
 odml = C.import_odml()
 from odml import dtypes
@@ -130,7 +130,7 @@ def one(p, op, k):
 
 
 def replay(t):
-    k = hash(repr(sorted(t["op"].items()))) & 1
+    k = zlib.crc32(repr(sorted(t["op"].items())).encode()) & 1
     p = build(t["pre"], k)
     got = facts(p, probe=False)
     if got["dtype"] != t["pre"]["d"] or got["n"] != t["pre"]["n"]:
